@@ -36,7 +36,7 @@ ASSUMPTIONS = [
 DECIDING_COUNTERS = ["c12.digests_recorded"]
 SHARD_TIMEOUT = {"quick": 900, "thorough": 7200}
 
-GRAPH_CLASSES = [("names_namespace", 200, 4000), ("names_long", 300, 6000), ("names_shuffled", 200, 4000), ("rand", 300, 6000),
+GRAPH_CLASSES = [("names_collide", 300, 6000), ("names_namespace", 200, 4000), ("names_long", 300, 6000), ("names_shuffled", 200, 4000), ("rand", 300, 6000),
                  ("loop", 200, 4000), ("struct", 200, 4000), ("cons", 60, 1000)]
 PROG_CLASSES = [("core", 100, 2000), ("expr", 60, 1000), ("loop", 60, 1000), ("deep", 40, 800)]
 
